@@ -108,6 +108,7 @@ func (s *Sim) opConnect(op *Op) {
 		resumed := !op.Clean && !(old.CleanV3)
 		s.connectionEndedModel(os, "takeover", resumed)
 	}
+	s.pendingWillOnConnect(sl.ClientID, op.Clean)
 	present := old != nil && !old.Abandoned && !op.Clean && !(old.CleanV3 && old.Ver < 5)
 	var sess *Session
 	if present {
@@ -472,7 +473,7 @@ func (s *Sim) route(msg *Msg) {
 			}
 			if anyNL {
 				// overlapping subscriptions disagree on No Local
-				e := s.oweLive(t, msg, plain, nil, "C03/missing-delivery", map[string]string{"nolocal_overlap_disagree": "true"})
+				e := s.oweLive(t, msg, plain, nil, missRule(msg), map[string]string{"nolocal_overlap_disagree": "true"})
 				if e != nil {
 					hasPlain[t.ID] = e
 					plainOf[t.ID] = plain
@@ -480,7 +481,7 @@ func (s *Sim) route(msg *Msg) {
 				continue
 			}
 		}
-		e := s.oweLive(t, msg, plain, nil, "C03/missing-delivery", nil)
+		e := s.oweLive(t, msg, plain, nil, missRule(msg), nil)
 		if e != nil {
 			hasPlain[t.ID] = e
 		}
@@ -676,6 +677,9 @@ func (s *Sim) opDisconnect(op *Op) {
 	if willDue {
 		s.connectionEndedModel(sl, op.How, false)
 	} else {
+		if sl.Sess.WillSlot != nil {
+			m.setWillDisp(sl.Sess.WillSlot, "discarded_by_normal_disconnect")
+		}
 		sl.Sess.WillSlot = nil
 		s.connectionEndedModel(sl, "normal", false)
 	}
@@ -741,4 +745,11 @@ func (s *Sim) onOtherPublish(sl *Slot, rp *eng.RxPacket, topic string) {
 	} else if p.QoS == 2 {
 		s.clientSend(sl, &rc.Packet{Type: rc.PUBREC, Version: sl.Ver, PacketID: p.PacketID})
 	}
+}
+
+func missRule(msg *Msg) string {
+	if msg.IsWill {
+		return "C16/will-not-published"
+	}
+	return "C03/missing-delivery"
 }
